@@ -1445,6 +1445,10 @@ void DecodeIntelDS(Word Code) {
 
         if (mFirstPassUnknown(Flags)) {
             WrError(ErrNum_FirstPassCalc);
+        } else if (OK && (HVal < 0)) {
+            /* a negative size would move the program counter back into code
+               already written */
+            WrStrErrorPos(ErrNum_UnderRange, &ArgStr[1]);
         } else if (OK) {
             DontPrint = True;
             CodeLen   = HVal;
